@@ -32,9 +32,15 @@ def main():
             faults[k] = faults.get(k, 0) + v
         for k, v in p.get("probes", {}).items():
             probes[k] = probes.get(k, 0) + v
+    evals = runs
+    if meta.get("evaluations_probe"):
+        evals = probes.get(meta["evaluations_probe"], 0)
+    if meta.get("distinct_from") == "states":
+        distinct = states
     cov = {
-        "evaluations": runs,
+        "evaluations": evals,
         "distinct_nontrivial": distinct,
+        "simulated_runs": runs,
         "rule": meta["rule"],
         "samples": samples if samples else [{"note": "no sample recorded"}],
         "operations_executed": ops,
